@@ -803,8 +803,13 @@ func (df *DataFrame) Describe() (*DataFrame, error) {
 
 		for _, v := range nums {
 			sum += v
-			min = math.Min(min, v)
-			max = math.Max(max, v)
+			// NaN cells are ignored, as in Series.Min and Series.Max
+			if v < min || math.IsNaN(min) {
+				min = v
+			}
+			if v > max || math.IsNaN(max) {
+				max = v
+			}
 		}
 
 
